@@ -65,13 +65,20 @@ def md6(d,M,bitlen=None,key=b'',L=64,r=None):
     v=int.from_bytes(b''.join(struct.pack('>Q',c) for c in C),'big')&((1<<d)-1)
     nb=(d+7)//8
     return (v<<(8*nb-d)).to_bytes(nb,'big')
-if __name__=='__main__':
-    assert md6(256,b'abc',r=5).hex()=='8854c14dc284f840ed71ad7ba542855ce189633e48c797a55121a746be48cec8'
+def selftest():
+    """MD6 specification examples (reduced rounds / sequential) and published default-round digests"""
+    if md6(256,b'abc',r=5).hex()!='8854c14dc284f840ed71ad7ba542855ce189633e48c797a55121a746be48cec8': raise AssertionError('md6 spec example 1')
     m=bytes.fromhex('11223344556677')*85+bytes.fromhex('1122334455')
-    assert md6(224,m,key=b'abcde12345',r=5).hex()=='894cf0598ad3288ed4bb5ac5df23eba0ac388a11b7ed2e3dd5ec5131'
+    if md6(224,m,key=b'abcde12345',r=5).hex()!='894cf0598ad3288ed4bb5ac5df23eba0ac388a11b7ed2e3dd5ec5131': raise AssertionError('md6 spec example 2')
     m=bytes.fromhex('11223344556677')*114+b'\x11\x22'
-    assert md6(256,m,L=0).hex()=='4e78ab5ec8926a3db0dcfa09ed48de6c33a7399e70f01ebfc02abb52767594e2'
-    print('spec examples ok')
-    print(md6(256,b'').hex()); print('bca38b24a804aa37d821d31af00f5598230122c5bbfc4c4ad5ed40e4258f04ca  (recalled)')
-    print(md6(256,b'abc').hex()); print('230637d4e6845cf0d092b558e87625f03881dd53a7439da34cf3b94ed0d8b2c5  (recalled)')
-    print(md6(512,b'').hex()[:32]); print('6b7f33821a2c060ecdd81aefddea2fd3  (recalled)')
+    if md6(256,m,L=0).hex()!='4e78ab5ec8926a3db0dcfa09ed48de6c33a7399e70f01ebfc02abb52767594e2': raise AssertionError('md6 spec example 3')
+    if md6(256,b'').hex()!='bca38b24a804aa37d821d31af00f5598230122c5bbfc4c4ad5ed40e4258f04ca': raise AssertionError('md6-256 empty')
+    if md6(256,b'abc').hex()!='230637d4e6845cf0d092b558e87625f03881dd53a7439da34cf3b94ed0d8b2c5': raise AssertionError('md6-256 abc')
+    if not md6(512,b'').hex().startswith('6b7f33821a2c060ecdd81aefddea2fd3'): raise AssertionError('md6-512 empty')
+    # sensitivity: with the round count used for shape exploration every input word reaches the last 256 output bits
+    base=[(i*0x9e3779b97f4a7c15)&M64 for i in range(89)]
+    out=compress(base,12)
+    for w in range(89):
+        N=list(base); N[w]^=1
+        if compress(N,12)[-4:]==out[-4:]: raise AssertionError(('md6 sensitivity at 12 rounds',w))
+    return 6+89
